@@ -257,15 +257,23 @@ def main():
     configs = spec.get("configs", {}).get(tier) or ["verif"]
     builders = {c: vbuild.Builder("asan", c) for c in configs}
     build_fail = []
+    # ThreadSanitizer pass: items marked flavour="tsan" run the same harness bodies in the tsan flavour (clang,
+    # harness code uninstrumented) so that unsynchronised accesses in the library are reported on every explored schedule
+    tsan_items = [i for i in items if i.get("flavour") == "tsan"]
+    tsan_builder = vbuild.Builder("tsan", "verif") if tsan_items else None
 
     def build_cfg(c):
-        names = sorted({i["exe"] for i in items if not (i.get("cxx20") and c.startswith("c17"))})
+        names = sorted({i["exe"] for i in items if i.get("flavour") != "tsan" and not (i.get("cxx20") and c.startswith("c17"))})
         return c, builders[c].build([exe_spec(n) for n in names])
     import concurrent.futures as cf
     with cf.ThreadPoolExecutor(3) as pool:
         for c, errs in pool.map(build_cfg, configs):
             if errs:
                 build_fail.append((c, errs))
+    if tsan_builder:
+        errs = tsan_builder.build([exe_spec(n) for n in sorted({i["exe"] for i in tsan_items})])
+        if errs:
+            build_fail.append(("tsan", errs))
     if build_fail and "configs" not in spec:
         print("BUILD-ERROR (engine error, no verdict):")
         print("\n".join(build_fail[0][1]))
@@ -280,17 +288,22 @@ def main():
     reports, engine_errors = [], []
     failed_cfgs = {c for c, _e in build_fail}
     work = [(c, i) for c in configs if c not in failed_cfgs for i in items if not (i.get("cxx20") and c.startswith("c17"))]
-    n_expected = len([(c, i) for c in configs for i in items if not (i.get("cxx20") and c.startswith("c17"))])
+    n_expected = len([(c, i) for c in configs for i in items if not (i.get("cxx20") and c.startswith("c17")) and not (i.get("flavour") == "tsan" and c != configs[0])])
     weights = [i.get("weight", 1.0) for _c, i in work]
     for n, (cfg, item) in enumerate(work):
         left = total_deadline - (time.time() - t0)
         share = left * weights[n] / max(1e-9, sum(weights[n:]))
-        rep, err = run_harness(builders[cfg], item, tier, max(8.0, share), os.path.join(outdir, cfg) if len(configs) > 1 else outdir)
+        is_tsan = item.get("flavour") == "tsan"
+        if is_tsan and cfg != configs[0]:
+            continue
+        rep, err = run_harness(tsan_builder if is_tsan else builders[cfg], item, tier, max(8.0, share),
+                               os.path.join(outdir, "tsan") if is_tsan else (os.path.join(outdir, cfg) if len(configs) > 1 else outdir))
         if err:
             engine_errors.append("[%s] %s" % (cfg, err))
             continue
         rep["_item"] = item
         rep["_config"] = cfg
+        rep["_flavour"] = "tsan" if is_tsan else "asan"
         reports.append(rep)
     # ---- verdicts ----
     known, _fixed = load_known()
@@ -367,11 +380,11 @@ def main():
                 continue
             nviol += 1
             os.makedirs(repdir, exist_ok=True)
-            path = os.path.join(repdir, sanitize(sig + ("." + "_".join(map(str, rep["args"])) if rep["args"] else "") + ("." + rep["_config"] if rep["_config"] != "verif" else "")) + ".json")
+            path = os.path.join(repdir, sanitize(sig + ("." + "_".join(map(str, rep["args"])) if rep["args"] else "") + ("." + rep["_config"] if rep["_config"] != "verif" else "") + (".tsan" if rep["_flavour"] == "tsan" else "")) + ".json")
             json.dump({"property": prop, "exe": rep["_item"]["exe"], "harness": rep["harness"], "args": rep["args"],
                        "bound": f["bound"], "choices": f["choices"], "key": f["key"], "msg": f["msg"], "signature": sig,
                        "outcome": f["outcome"], "failing_schedules": f["count"], "detail": f["detail"],
-                       "flavour": "asan", "config": rep["_config"],
+                       "flavour": rep["_flavour"], "config": rep["_config"],
                        "how_to_replay": "python3 tools/check.py %s --replay %s" % (prop, path)}, open(path, "w"), indent=1)
             viol_lines.append("VIOLATION property=%s replay=%s" % (prop, path))
             sys.stderr.write("  %s: %s\n" % (sig, f["msg"][:300]))
@@ -385,7 +398,7 @@ def main():
     samples = []
     for r in reports:
         last = [b for b in r["bounds"] if b["complete"]]
-        per.append({"harness": r["harness"], "args": r["args"], "config": r["_config"], "sequential": r["sequential"],
+        per.append({"harness": r["harness"] + ("[tsan]" if r["_flavour"] == "tsan" else ""), "args": r["args"], "config": r["_config"], "sequential": r["sequential"],
                     "bound_requested": r["_bound_requested"], "bound_completed": (last[-1]["bound"] if last else None),
                     "executions": sum(b["executions"] for b in r["bounds"]), "states": r["bounds"][-1]["states"] if r["bounds"] else 0,
                     "transitions": sum(b["transitions"] for b in r["bounds"]), "pruned_equivalent": sum(b["pruned"] for b in r["bounds"]),
@@ -412,7 +425,8 @@ def main():
         "assumptions": spec.get("assumptions", []) + [
             "sequentially consistent interleavings of the hooked synchronisation operations (atomics, mutexes, condition variables, threads, clock)",
             "bounds as listed per harness; a harness with exhaustive_within_bound=false was cut by the deadline and claims only bound_completed",
-            "g++ 12 -O1 with AddressSanitizer; library assertions enabled (no NDEBUG)"],
+            "g++ 12 -O1 with AddressSanitizer; library assertions enabled (no NDEBUG); harnesses marked [tsan] additionally run under clang 14 "
+            "ThreadSanitizer (library and hook layer instrumented, harness monitors not), where a data race on any explored schedule is a violation"],
         "wall_s": round(wall, 2), "violations": nviol,
     }
     if not a.no_evidence and not a.only:
